@@ -234,3 +234,39 @@ Theorem C20_decompress_no_panic : forall ctx lls lld b total_len buflen,
   forall d, lp_sixlowpan_to_ipv6 ctx lls lld b total_len buflen = Ok d -> blen d <= buflen.
 Proof. exact lp_sixlowpan_to_ipv6_total. Qed.
 Print Assumptions C20_decompress_no_panic.
+
+(* lowpan_roundtrip: for EVERY IPv6 datagram the stack can send over 802.15.4 (lp_dgram_wf: UDP on
+   any ports through LOWPAN_NHC, or the emitted octets of an ICMPv6 message / TCP segment; any 16-octet
+   addresses, hop limit, link-layer addresses), ANY previous content of the buffer it is compressed
+   into and ANY context table at the receiver:  ipv6_to_sixlowpan writes the compressed form c, and
+   sixlowpan_to_ipv6 c (same link-layer addresses) is exactly the datagram's octets D, where D is what
+   the same stack sends over a plain IPv6 medium (UDP checksum included). *)
+Theorem C20_lowpan_roundtrip : forall d lls lld ctx c D buffer buflen,
+  lp_dgram_wf d lls lld -> lp_compressed d lls lld = Ok c -> lp_ipv6_bytes d = Ok D ->
+  bytes_ok buffer = true -> blen c <= blen buffer -> blen D <= buflen ->
+  lp_ipv6_to_sixlowpan d lls lld buffer = Ok (c ++ skipn (Z.to_nat (blen c)) buffer) /\
+  lp_sixlowpan_to_ipv6 ctx lls lld c None buflen = Ok D.
+Proof. exact lp_roundtrip. Qed.
+Print Assumptions C20_lowpan_roundtrip.
+
+(* ... and with fragmentation in between: the frames of dispatch_sixlowpan / dispatch_sixlowpan_frag
+   for the compressed packet, ANY sub-multiset of them in ANY order (duplicates, omissions), at a
+   receiver whose slots satisfy the reassembly invariant (e.g. fresh): every datagram delivered is
+   D, octet for octet; otherwise nothing is delivered.  The receiver's view of a frame
+   ([lpf_rx_of_frame]: parsed fragment header, payload, sixlowpan_to_ipv6 of the first fragment) is
+   what process_sixlowpan builds from the frame octets by C20_frag_hdr_roundtrip. *)
+Theorem C20_lowpan_roundtrip_fragmented : forall d lls lld ctx c D ieee_len tag chdr uhdr,
+  lp_dgram_wf d lls lld -> lp_compressed d lls lld = Ok c -> lp_ipv6_bytes d = Ok D ->
+  lp_compressed_packet_size d lls lld = Ok (blen c, chdr, uhdr) ->
+  5 <= ieee_len <= 21 -> lpf_needs_frag (blen c) ieee_len = true -> blen c <= lpf_BUFFER ->
+  forall frames arrivals rfs now timeout ll_src ll_dst ss,
+    lpf_send ieee_len c chdr uhdr (lp_payload_len (ld_pl d)) tag = Ok frames ->
+    incl arrivals frames ->
+    map (lpf_rx_of_frame (fun buflen =>
+           lp_sixlowpan_to_ipv6 ctx lls lld (firstn (Z.to_nat (lpf_f1 ieee_len (uhdr - chdr))) c)
+                                (Some (blen D)) buflen)) arrivals = map Some rfs ->
+    Forall (slot_inv D (ll_src, ll_dst, blen D, tag)) ss ->
+    exists ss' ds, lpf_process_all now timeout ll_src ll_dst rfs ss = Ok (ss', ds) /\
+                   Forall (slot_inv D (ll_src, ll_dst, blen D, tag)) ss' /\ Forall (fun x => x = D) ds.
+Proof. exact lp_roundtrip_fragmented. Qed.
+Print Assumptions C20_lowpan_roundtrip_fragmented.
